@@ -105,7 +105,7 @@ def main(run):
         "History: asynchronous interrupt inside Awaiting.__enter__ (Restored up to dead entries)", workers=4)
     tlc(run, "History", hcfg(K8, 2, 2, True, 1, False, ["RestoredStrict"]),
         "History: asynchronous interrupt leaves a dead stack entry (expected violation: readings are diagnostic)", expect="RestoredStrict", workers=2)
-    res = tlc(run, "History", hcfg(K8, 50, 2, False, 50, True, INVS), "History: simulated histories of 50", simulate=(1000 if thorough else 100),
+    res = tlc(run, "History", hcfg(K8, 50, 2, False, 50, True, INVS), "History: simulated histories of 50", simulate=(1000 if thorough else 60),
               depth=4000, seed=run.seed + 5, workers=1)
     long_h = [r["hist"] for r in res.exports]
     if not long_h:
